@@ -20,6 +20,7 @@ THEOREMS = ["C16_ippt", "C16_ippt_raw_flags", "C16_result_shape", "C16_result_sh
             "C16_results_ignored", "C16_resign_replaces", "C16_resign_pipeline",
             "C16_asb_layout", "C16_bib_pipeline", "C16_bib_block", "C16_ippt_injective", "C16_ippt_injective_target"]
 XCHECK = 120
+RELEASE = True          # debug and release builds of the harness (debug_assert!, overflow checks, cfg(debug_assertions))
 RULE = ("IPPT: target blocks of every carried type (payload, bundle age, hop count, previous node, unknown types incl. 11/12/192/2^64-1) x all 8 "
         "scope-flag values (plus raw words >= 8 for correspondence only) x primaries of the C01 domain without CRC (fragment and non-fragment, all "
         "EID kinds) x security headers with boundary-biased numbers; BIB: bundles with 0-3 extension blocks, 1..n targets in random order, SHA "
